@@ -684,7 +684,10 @@ impl Builtins {
         };
 
         // 3. compare via regex
-        let rex = Regex::new(&right_str)?;
+        let rex = match Regex::new(&right_str) {
+            Ok(rex) => rex,
+            Err(e) => return Err(Error::from(e).with_pos(pos)),
+        };
         stack.push((Rc::new(P(Bool(rex.find(&left_str).is_some()))), pos));
         Ok(())
     }
